@@ -220,6 +220,22 @@ func (u *Universe) includeChains() {
 	two := u.Record("RTwoInc", []*Type{inc2, u.ByName["RecSmall"]}, Req("y", P(String)))
 	nested := u.Record("RNestInc", nil, Req("n", top), Opt("no", only), Req("arr", ArrayOf(top)))
 	u.Wrappers = append(u.Wrappers, inc2, inc1, top, only, two, nested)
+	// include fans: several siblings including the same record, over bases with 2 and 3 required
+	// fields (shared required-field tables, defaults and partial-update helpers must not alias)
+	for _, n := range []int{2, 3} {
+		var bf []*Field
+		for i := 1; i <= n; i++ {
+			bf = append(bf, Req(fmt.Sprintf("b%d", i), P(Int32)))
+		}
+		bf = append(bf, Opt("bo", P(String)))
+		base := u.Record(fmt.Sprintf("FanBase%d", n), nil, bf...)
+		mid := u.Record(fmt.Sprintf("FanMid%d", n), []*Type{base}, Req("m", P(String)), Def("md", P(Int32), "5"))
+		a := u.Record(fmt.Sprintf("FanA%d", n), []*Type{mid}, Req("fa", P(String)), Opt("fao", P(Int32)))
+		b := u.Record(fmt.Sprintf("FanB%d", n), []*Type{mid}, Req("fb", P(Int64)))
+		c := u.Record(fmt.Sprintf("FanC%d", n), []*Type{mid}, Req("fc1", P(Bool)), Req("fc2", P(String)))
+		d := u.Record(fmt.Sprintf("FanD%d", n), []*Type{base}, Req("fd", P(String)))
+		u.Wrappers = append(u.Wrappers, base, mid, a, b, c, d)
+	}
 }
 
 func (u *Universe) wideUnions(full bool) {
